@@ -7,7 +7,7 @@ use crate::runner::{hash_of, Failure, Run, Stats};
 use proptest::prelude::*;
 use serde::{Deserialize, Serialize};
 use serde_json::{json, Value};
-use std::collections::BTreeMap;
+use std::collections::{BTreeMap, HashMap};
 use std::time::{Duration, UNIX_EPOCH};
 
 pub const LEVEL: &str = "exploration";
@@ -289,11 +289,104 @@ pub fn run_case(c: &Case, st: &mut Stats) -> Result<(), Failure> {
     Ok(())
 }
 
+/// Every SINGLE option flipped by update-engine, in both directions, on top of 6 base settings x 3 layouts, judged
+/// on a battery of probes that is sensitive to each of the 11 options (a generated multi-flip pair rarely meets the
+/// one text that shows a particular option).
+fn single_flips(run: &Run) {
+    use crate::driver::{layout_inverse, Layout};
+    let mut items: Vec<(usize, u16, u16)> = vec![];
+    for layout in 0..3usize {
+        for base in [0u16, 0x7ff, 0b110, 0b110 | (1 << 10), 0b101_0101_0110, 0b010_1010_1110] {
+            for bit in 0..11u16 {
+                items.push((layout, base, bit));
+            }
+        }
+    }
+    let invs: Vec<HashMap<String, (u16, u8)>> = vec![HashMap::new(), layout_inverse(Layout::Probhat), layout_inverse(Layout::Synthetic)];
+    run.exhaustive(
+        "single-option-flips-x-sensitive-probes",
+        &items,
+        |_| (),
+        |&(layout, base, bit), st, _| {
+            let o1 = crate::driver::Opts::from_bits(layout, base);
+            let o2 = crate::driver::Opts::from_bits(layout, base ^ (1 << bit));
+            let case = || json!({"single_flip": {"cfg1": o1.letters(), "cfg2": o2.letters()}});
+            single_flip_case(o1, o2, &invs[layout], st).map_err(|(k, m)| Failure::new(&k, m, case()))
+        },
+    );
+}
+
+fn single_flip_case(o1: Opts, o2: Opts, inv: &HashMap<String, (u16, u8)>, st: &mut Stats) -> Result<(), (String, String)> {
+    let pf = |p: crate::driver::PanicInfo| (panic_kind(&p), p.to_string());
+    // probes: key sequences (code, modifier)
+    let ascii = |s: &str| -> Vec<(u16, u8)> { s.chars().map(|c| (keys().code_for(c), 0u8)).collect() };
+    let mut probes: Vec<Vec<(u16, u8)>> = vec![];
+    if o1.is_phonetic() {
+        for t in ["\"ami\"", "'k'", "ami", ":)", "smile", "sesh.", "abcgulo"] {
+            probes.push(ascii(t));
+        }
+    } else {
+        let v = |vals: &[&str]| -> Option<Vec<(u16, u8)>> { vals.iter().map(|x| inv.get(*x).copied()).collect() };
+        let (ka, ikar, ukar, aakar, chandra, hasanta, ra) = ("\u{0995}", "\u{09BF}", "\u{09C1}", "\u{09BE}", "\u{0981}", "\u{09CD}", "\u{09B0}");
+        for p in [
+            v(&["\"", ka, "\""]),                         // smart quotes
+            v(&[aakar]),                                  // auto vowel
+            v(&[ka, chandra, aakar]),                     // auto chandrabindu
+            v(&[ka, ukar]),                               // traditional joining
+            v(&[ka, hasanta, ka, crate::model::REPH]),    // old reph (layouts with a reph key)
+            v(&[ka, ra, hasanta]),                        // old reph, Probhat style (ra + hasanta typed after)
+            v(&[ikar, ka]),                               // old vowel-sign order
+            v(&[ka, aakar, ka]),                          // suggestions / ANSI / English (a dictionary prefix)
+        ]
+        .into_iter()
+        .flatten()
+        {
+            probes.push(p);
+        }
+        probes.push(vec![(keys().by_name("KP_1").map(|k| k.code).unwrap_or(0), 0), (keys().by_name("KP_DECIMAL").map(|k| k.code).unwrap_or(0), 0)]); // number pad
+        probes.push(ascii(";)")); // emoticon through raw keys
+    }
+    let sb = Sandbox::new();
+    std::fs::write(sb.selection_file(), STORE0).expect("store");
+    let mut a = Ctx::new(o1, &sb).map_err(pf)?;
+    // the battery once under the old configuration (so that whatever is cached, is cached)
+    for p in &probes {
+        for (c, m) in p {
+            a.key(*c, *m, 0).map_err(pf)?;
+        }
+        a.finish().map_err(pf)?;
+    }
+    a.update(o2, &sb).map_err(pf)?;
+    let copy = sb.duplicate();
+    let b = Ctx::new(o2, &copy).map_err(pf)?;
+    for p in &probes {
+        for (i, (c, m)) in p.iter().enumerate() {
+            let ra = a.key(*c, *m, 0).map_err(pf)?;
+            let rb = b.key(*c, *m, 0).map_err(pf)?;
+            st.evals(1);
+            if ra != rb || a.ongoing() != b.ongoing() {
+                let names: Vec<String> = p.iter().map(|(c, m)| format!("{}{}", keys().by_code(*c).map(|k| k.name.clone()).unwrap_or_default(), if *m != 0 { "+AltGr" } else { "" })).collect();
+                return Err((
+                    "single-option-flip-not-honoured".to_string(),
+                    format!("{} -> {} by update-engine, probe {names:?} at key #{i}: the updated context returns {} (ongoing {}) but a newly created context returns {} (ongoing {})", o1.letters(), o2.letters(), ra.short(), a.ongoing(), rb.short(), b.ongoing()),
+                ));
+            }
+        }
+        a.finish().map_err(pf)?;
+        b.finish().map_err(pf)?;
+    }
+    st.label("single-option-flips");
+    st.nontrivial(hash_of(&(o1.letters(), o2.letters())), || json!({"cfg1": o1.letters(), "cfg2": o2.letters(), "probes": probes.len()}));
+    Ok(())
+}
+
 pub fn strategy() -> impl Strategy<Value = Case> {
     let layout_pair = prop_oneof![
         3 => Just((0usize, 0usize)),
         1 => Just((0, 1)), 1 => Just((1, 0)), 1 => Just((0, 2)), 1 => Just((2, 0)), 1 => Just((1, 2)), 1 => Just((2, 1)),
         1 => Just((1, 1)), 1 => Just((2, 2)),
+        // 3 = another layout file with the same file NAME as the bundled Probhat.json, in another directory
+        1 => Just((1, 3)), 1 => Just((3, 1)),
     ];
     let cfgs = (layout_pair, 0u16..2048, proptest::collection::vec(0u16..11, 0..4), proptest::bool::weighted(0.7)).prop_map(|((l1, l2), bits, flips, force_sugg)| {
         let mut b1 = bits;
@@ -304,7 +397,14 @@ pub fn strategy() -> impl Strategy<Value = Case> {
         for f in flips {
             b2 ^= 1 << f;
         }
-        (crate::driver::Opts::from_bits(l1, b1).letters(), crate::driver::Opts::from_bits(l2, b2).letters())
+        let mk = |l: usize, b: u16| {
+            let mut o = crate::driver::Opts::from_bits(l.min(2), b);
+            if l == 3 {
+                o.layout = crate::driver::Layout::Twin;
+            }
+            o.letters()
+        };
+        (mk(l1, b1), mk(l2, b2))
     });
     let pick = prop_oneof![3 => any::<u16>().prop_map(Pick::Word), 2 => any::<u8>().prop_map(Pick::Again)];
     let step = || (pick.clone(), prop_oneof![2 => Just(None), 3 => any::<u16>().prop_map(Some)]).prop_map(|(pick, commit)| WordStep { pick, commit });
@@ -338,6 +438,8 @@ pub fn strategy() -> impl Strategy<Value = Case> {
 }
 
 pub fn run(run: &Run) {
+    single_flips(run);
+    run.require_label("single-option-flips", 190);
     run.sharded("update-vs-new-context", 16, run.tier.pick(300, 7000), 400, strategy, |_| (), |c: &Case, st, _| run_case(c, st));
     run.require_label("edit-touches-word-typed-before-and-after", 50);
     run.require_label("layout-changes", 100);
@@ -347,6 +449,11 @@ pub fn run(run: &Run) {
 }
 
 pub fn replay(_run: &Run, case: &Value) -> Result<(), Failure> {
+    if let Some(sf) = case.get("single_flip") {
+        let (o1, o2) = (Opts::parse(sf["cfg1"].as_str().unwrap_or_default()), Opts::parse(sf["cfg2"].as_str().unwrap_or_default()));
+        let inv = if o1.is_phonetic() { HashMap::new() } else { crate::driver::layout_inverse(o1.layout) };
+        return single_flip_case(o1, o2, &inv, &mut Stats::new()).map_err(|(k, m)| Failure::new(&k, m, case.clone()));
+    }
     let c: Case = serde_json::from_value(case.clone()).map_err(|e| Failure::new("replay", format!("bad case: {e}"), case.clone()))?;
     run_case(&c, &mut Stats::new())
 }
